@@ -4,6 +4,7 @@ SPECIFICATION Spec
 CONSTANTS
   Threads = {1, 2, 3}
   Rounds = 2
+  MoreRounds = {}
   PassiveSpin = 1
   Spurious = FALSE
   WakeOn = 2
